@@ -625,7 +625,15 @@ class _PostUpdateAll(_PostSortRec):
     def execute(self, uow):
         persistence = util.preloaded.orm_persistence
         states, cols = uow.post_update_states[self.mapper]
-        states = [s for s in states if uow.states[s][0] == self.isdelete]
+        # a state can be registered for post update without being part
+        # of the flush, e.g. a collection member that is not in the
+        # Session ("Object of type ... not in session, add operation
+        # along ... will not proceed"); nothing is emitted for it
+        states = [
+            s
+            for s in states
+            if s in uow.states and uow.states[s][0] == self.isdelete
+        ]
 
         persistence._post_update(self.mapper, states, uow, cols)
 
